@@ -178,6 +178,8 @@ fn aidx_value(vp: &str, ow: u64, a: u64) -> (u32, u64) {
     match vp {
         "lo" => ((a + 1) as u32, 4096 * a + 7),
         "hi" => (u32::MAX - a as u32, maxoff - a),
+        // one past the largest offset the configured field can hold: not representable
+        "over" => ((a + 1) as u32, maxoff + 1 + a),
         other => panic!("driver: unknown value profile {other}"),
     }
 }
@@ -185,7 +187,7 @@ fn aidx_value(vp: &str, ow: u64, a: u64) -> (u32, u64) {
 fn present_aidx(vp: &str, ow: u64, size: u32, off: u64) -> Value {
     let maxoff: u64 = (1u64 << (8 * ow)) - 1;
     match vp {
-        "lo" => json!(format!("{}:{}", small(size as u128), small(off as u128))),
+        "lo" | "over" => json!(format!("{}:{}", small(size as u128), small(off as u128))),
         _ => json!(format!("{}:{}", small((u32::MAX - size) as u128), small(maxoff.wrapping_sub(off) as u128))),
     }
 }
